@@ -251,6 +251,58 @@ def random_range(rng, doc, aligned=True):
     return (a, b) if a <= b else (b, a)
 
 
+def position_depths(doc):
+    """nesting depth at every position 0..content.size (a walk over the tree)"""
+    out = [0]
+
+    def walk(node, depth):
+        for i in range(node.child_count):
+            c = node.child(i)
+            if c.is_text:
+                out.extend([depth] * c.node_size)
+            elif c.is_leaf:
+                out.append(depth)
+            else:
+                out.append(depth + 1)
+                walk(c, depth + 1)
+                out.append(depth)
+    walk(doc, 0)
+    return out
+
+
+def fitting_range(rng, al, depths, sl):
+    """a range whose two ends lie as deep as the open sides of the slice ask for (depth(from) - open_start ==
+    depth(to) - open_end >= 0): the places where a slice of these open depths can go at all — half of the time one whose ends
+    lie in different subtrees below the level the slice is inserted at (the replace has to join nodes around the slice), if
+    there is one.  `al`: the pair-aligned positions of the document; None if there is no such range"""
+    by_depth = {}
+    for p in al:
+        by_depth.setdefault(depths[p], []).append(p)
+    starts = [p for p in al if depths[p] >= sl.open_start and (depths[p] - sl.open_start + sl.open_end) in by_depth]
+    rng.shuffle(starts)
+    want_cross = rng.random() < 0.5
+    fallback = None
+    for f in starts[:6]:
+        ends = [p for p in by_depth[depths[f] - sl.open_start + sl.open_end] if p >= f]
+        if not ends:
+            continue
+        if want_cross:
+            level = depths[f] - sl.open_start
+            cross, low, last = [], depths[f], f
+            for p in ends:
+                low = min([low] + depths[last:p + 1])
+                last = p
+                if low < level:
+                    cross.append(p)
+            if cross:
+                return f, rng.choice(cross)
+            fallback = fallback or (f, rng.choice(ends))
+            continue
+        near = [p for p in ends if p <= f + 8]
+        return f, rng.choice(near if near and rng.random() < 0.4 else ends)
+    return fallback
+
+
 def random_slice(rng, docs):
     """a slice cut from one of docs (every open depth occurs), sometimes closed / empty"""
     d = rng.choice(docs)
